@@ -59,6 +59,17 @@ Theorem C03_writer_wellformed_native : forall cfg user evs,
 Proof. exact writer_wellformed_native. Qed.
 Print Assumptions C03_writer_wellformed_native.
 
+(* ---- C03 (writer half), native writer: under the guard the call succeeds, the output is a
+   well-formed, namespace-well-formed document, and its infoset says exactly what the
+   events (plus the configured root attributes) say *)
+Theorem C03_writer_sound_native : forall cfg user evs,
+  writer_guard cfg user evs = true ->
+  exists e d t,
+    expected cfg evs = Some e /\ run_native cfg user evs = inl d
+    /\ resolve d = Some t /\ doc_says e t = true.
+Proof. exact writer_sound_native. Qed.
+Print Assumptions C03_writer_sound_native.
+
 (* ---- the unguarded statement is false of the faithful model; one witness per guard clause *)
 Theorem C03_native_sound_unguarded_refuted : ~ (forall cfg user evs, native_sound_b cfg user evs = true).
 Proof. exact native_sound_unguarded_refuted. Qed.
